@@ -140,6 +140,8 @@ def main():
                     continue
                 confs = [(P, 1) for P in Pr] + [(1, 4), (2, 4)] + ([(3, 16), (1, 16), (4, 2)] if thorough else [])
                 for (P, thr) in confs:
+                    if len(c.violations) >= 6:
+                        break       # the tree is broken: further runs would each cost their full time-out
                     for s in range(seeds):
                         n += 1
                         sc = dict(base)
